@@ -92,6 +92,8 @@ type PluginSpec struct {
 	MaxLifeMs     int             `json:"max_life_ms,omitempty"`
 	StartMarker   string          `json:"start_marker,omitempty"` // file appended to when the process starts
 	NoParentWatch bool            `json:"no_parent_watch,omitempty"`
+	// PreAttach is written to os.Stdout/os.Stderr as soon as Serve has swapped them for its pipes
+	PreAttach []Write `json:"pre_attach,omitempty"`
 }
 
 const defaultCookieKey = "VERIF_PLUGIN_COOKIE"
@@ -267,6 +269,35 @@ func (im *impl) handle(c Cmd) (r Reply, err error) {
 			}
 			if _, werr := f.Write(w.Data); werr != nil {
 				return r, fmt.Errorf("write %s: %v", w.Stream, werr)
+			}
+		}
+	case "writepar":
+		// stdout writes and stderr writes run concurrently; each stream's own writes stay in order
+		var wg sync.WaitGroup
+		errs := make([]error, 2)
+		for i, stream := range []string{"out", "err"} {
+			wg.Add(1)
+			go func(i int, stream string) {
+				defer wg.Done()
+				f := os.Stdout
+				if stream == "err" {
+					f = os.Stderr
+				}
+				for _, w := range c.Writes {
+					if w.Stream != stream {
+						continue
+					}
+					if _, werr := f.Write(w.Data); werr != nil {
+						errs[i] = werr
+						return
+					}
+				}
+			}(i, stream)
+		}
+		wg.Wait()
+		for _, e := range errs {
+			if e != nil {
+				return r, e
 			}
 		}
 	case "env":
@@ -563,6 +594,15 @@ func (h *grpcHandle) Close() error     { return nil }
 
 func pluginMain(specJSON string) {
 	var spec PluginSpec
+	if strings.HasPrefix(specJSON, "@") {
+		b, err := os.ReadFile(specJSON[1:])
+		if err != nil {
+			fmt.Fprintf(os.Stderr, "plugin spec file: %v\n", err)
+			os.Exit(3)
+		}
+		os.Remove(specJSON[1:])
+		specJSON = string(b)
+	}
 	if err := json.Unmarshal([]byte(specJSON), &spec); err != nil {
 		fmt.Fprintf(os.Stderr, "bad plugin spec: %v\n", err)
 		os.Exit(3)
@@ -617,6 +657,22 @@ func pluginMain(specJSON string) {
 			}
 			return &tls.Config{Certificates: []tls.Certificate{cert}, MinVersion: tls.VersionTLS12}, nil
 		}
+	}
+	if len(spec.PreAttach) > 0 {
+		origOut := os.Stdout
+		go func() {
+			for os.Stdout == origOut {
+				time.Sleep(200 * time.Microsecond)
+			}
+			time.Sleep(2 * time.Millisecond) // both variables are swapped together
+			for _, w := range spec.PreAttach {
+				f := os.Stdout
+				if w.Stream == "err" {
+					f = os.Stderr
+				}
+				f.Write(w.Data)
+			}
+		}()
 	}
 	plugin.Serve(cfg)
 
